@@ -1,6 +1,289 @@
-/- C04 — model not written yet (stub so that the driver target exists). -/
-namespace Nitime.C04
+/-
+C04 / C06 — model of the spectral density estimators of `nitime.algorithms.spectral`
+(core Lean only; written once over `RScalar R` / `CScalar R K`, see `Nitime/Model/Num.lean`).
 
-def handle (_args : List String) : String := "bad-op"
+Follows the source:
+* `periodogram`           → `spec`, `pgOne`, `periodogramOf/At`, executable `periodogramList`
+* `periodogram_csd`       → `csdPairOne`, `csdPair`, `lowerPairs`, `completeHermitian`,
+                            `periodogramCsdAt`, executable `periodogramCsdList`
+                            (normalised by `Fs·n` — the INTENDED normalisation; today's code divides
+                            by `Fs·NFFT`, finding `periodogram_csd/zero-padded/…`)
+* `tapered_spectra`       → `taperedSpec` (de-mean, taper, zero-pad, DFT); tapers are data
+* `mtm_cross_spectrum`    → `mtmAuto` (single weights array: real result, denominator `Σ|w|²`),
+                            `mtmCross` (pair of weights: denominator `√Σ|wx|²·√Σ|wy|²`)
+* `multi_taper_psd/csd`   → `multiTaperPsdAt`, `multiTaperCsdAt` (+ `…List`); weights are data
+                            (`√eigenvalue` per taper, or the adaptive weights per taper and bin)
+* `get_spectra` (Welch)   → `welchCsdAt` models `matplotlib.mlab.csd` by its documented behaviour
+                            (zero-pad to NFFT, segments every `NFFT-noverlap`, window, no detrend,
+                            `conj(X)·Y` averaged over segments, one-sided doubling, `/Fs/Σw²`,
+                            two-sided output rolled to start at the most negative frequency);
+                            `welchSpectraAt` is the upper-triangle fill `fxy[i][j] = csd(x_j, x_i)`.
+
+The `…At` functions are the pointwise mathematical definitions; the `…List` functions are what
+the driver runs: the same definitions with the spectra tabulated once (`memoArr`/`memoGet`), and
+`Nitime/Props/C04.lean` proves `…List = (List.range L).map …At` for every scalar type.
+The index formulas `Fn`, `Fl`, `lastFreq` come from `Nitime/Generated/SpecIdx.lean`, regenerated
+from the source on every run.
+-/
+import Nitime.Model.Num
+import Nitime.Generated.SpecIdx
+
+namespace Nitime.C04
+open Nitime.Num
+
+/-- "putative Nyquist" count `N // 2 + 1` (generated from `periodogram`) -/
+abbrev Fn (N : Nat) : Nat := Generated.SpecIdx.periodogram_Fn N
+/-- "last duplicate frequency" `(N + 1) // 2` (generated from `periodogram`) -/
+abbrev Fl (N : Nat) : Nat := Generated.SpecIdx.periodogram_Fl N
+
+section generic
+variable {R K : Type} [RScalar R] [CScalar R K]
+
+/-- number of returned bins -/
+def outLen (N : Nat) (onesided : Bool) : Nat := if onesided then Fn N else N
+
+/-- `fftpack.fft(s, n=N)`: DFT of the signal zero-padded (or truncated) to `N` -/
+def spec (tw : Nat → K) (N n : Nat) (x : Nat → K) (k : Nat) : K := dftAt tw N (padded n x) k
+
+/-! ### periodogram -/
+
+/-- one-sided assembly of `periodogram`: `P[0]`, `P[1:Fl] = 2|S|²`, `P[Fn-1]` when `Fn > Fl` -/
+def pgOne (N : Nat) (S : Nat → K) (k : Nat) : R :=
+  if k = 0 then sqmag (S 0)
+  else if k < Fl N then ofNat 2 * sqmag (S k)
+  else if Fl N < Fn N ∧ k = Fn N - 1 then sqmag (S k)
+  else ofNat 0
+
+/-- `periodogram` from the spectrum `S`, normalised by `Fs * s.shape[-1]` -/
+def periodogramOf (Fs : R) (n N : Nat) (onesided : Bool) (S : Nat → K) (k : Nat) : R :=
+  (if onesided then pgOne N S k else sqmag (S k)) / (Fs * ofNat n)
+
+def periodogramAt (tw : Nat → K) (Fs : R) (n N : Nat) (onesided : Bool) (x : Nat → K) (k : Nat) : R :=
+  periodogramOf Fs n N onesided (spec tw N n x) k
+
+def periodogramList (tw : Nat → K) (Fs : R) (n N : Nat) (onesided : Bool) (x : Nat → K) : List R :=
+  let S := memoArr N (spec tw N n x)
+  (List.range (outLen N onesided)).map (periodogramOf Fs n N onesided (memoGet S (spec tw N n x)))
+
+/-! ### all-pairs periodogram and the Hermitian completion -/
+
+/-- one-sided `csd_pairs[i, j, k]` before normalisation -/
+def csdPairOne (N : Nat) (Si Sj : Nat → K) (k : Nat) : K :=
+  if k = 0 then Si 0 * conj (Sj 0)
+  else if k < Generated.SpecIdx.periodogram_csd_Fl N then kscale (ofNat 2) (Si k * conj (Sj k))
+  else if Generated.SpecIdx.periodogram_csd_Fl N < Generated.SpecIdx.periodogram_csd_Fn N
+      ∧ k = Generated.SpecIdx.periodogram_csd_Fn N - 1 then Si k * conj (Sj k)
+  else CScalar.zero
+
+def csdPair (onesided : Bool) (N : Nat) (Si Sj : Nat → K) (k : Nat) : K :=
+  if onesided then csdPairOne N Si Sj k else Si k * conj (Sj k)
+
+/-- the pair loops fill only `j ≤ i`; the rest of `csd_pairs` stays zero -/
+def lowerPairs (P : Nat → Nat → Nat → K) (i j k : Nat) : K :=
+  if j ≤ i then P i j k else CScalar.zero
+
+/-- `csd_pairs.transpose(1,0,2).conj() + csd_pairs`, diagonal halved -/
+def completeHermitian (L : Nat → Nat → Nat → K) (i j k : Nat) : K :=
+  let v := conj (L j i k) + L i j k
+  if i = j then kscale (ofNat 1 / ofNat 2) v else v
+
+/-- `periodogram_csd` from the channel spectra `S i` (normalisation `Fs·n`, see header) -/
+def periodogramCsdOf (Fs : R) (n N : Nat) (onesided : Bool) (S : Nat → Nat → K) (i j k : Nat) : K :=
+  completeHermitian (lowerPairs fun i j k =>
+    kscale (ofNat 1 / (Fs * ofNat n)) (csdPair onesided N (S i) (S j) k)) i j k
+
+def periodogramCsdAt (tw : Nat → K) (Fs : R) (n N : Nat) (onesided : Bool) (x : Nat → Nat → K)
+    (i j k : Nat) : K :=
+  periodogramCsdOf Fs n N onesided (fun i => spec tw N n (x i)) i j k
+
+def periodogramCsdList (tw : Nat → K) (Fs : R) (n N M : Nat) (onesided : Bool)
+    (x : Nat → Nat → K) : List K :=
+  let S := memoArr2 M N fun i => spec tw N n (x i)
+  matList M (if onesided then Generated.SpecIdx.periodogram_csd_Fn N else N)
+    (periodogramCsdOf Fs n N onesided (memoGet2 S fun i => spec tw N n (x i)))
+
+/-! ### multitaper -/
+
+/-- `tapered_spectra`: de-mean, multiply by the taper `h`, zero-pad to `N`, DFT -/
+def taperedSpec (tw : Nat → K) (N n : Nat) (h : Nat → R) (x : Nat → K) (k : Nat) : K :=
+  dftAt tw N (padded n fun j => kscale (h j) (demean n x j)) k
+
+/-- the doubling `sf[1:Fl] *= 2` of `mtm_cross_spectrum` for one-sided output -/
+def dblIf {α : Type} (dbl : α → α) (onesided : Bool) (N k : Nat) (v : α) : α :=
+  if onesided ∧ 1 ≤ k ∧ k < Generated.SpecIdx.mtm_Fl N then dbl v else v
+
+/-- `mtm_cross_spectrum(tx, tx, weights)`: weighted tapered spectra `X t`, weights `w t k`,
+divided by `Σ_t |w|²`, doubled at the duplicated bins, real part -/
+def mtmAuto (N : Nat) (onesided : Bool) (T : Nat) (w : Nat → Nat → R) (X : Nat → Nat → K)
+    (k : Nat) : R :=
+  let denom := rsum T fun t => w t k * w t k
+  let sf := ksum T fun t => kscale (w t k) (X t k) * conj (kscale (w t k) (X t k))
+  dblIf (fun v => ofNat 2 * v) onesided N k (re sf / denom)
+
+/-- `mtm_cross_spectrum(tx, ty, (wx, wy))`: denominator `(Σ|wx|²)^½ (Σ|wy|²)^½`, complex result -/
+def mtmCross (N : Nat) (onesided : Bool) (T : Nat) (wx wy : Nat → Nat → R)
+    (X Y : Nat → Nat → K) (k : Nat) : K :=
+  let denom := sqrt (rsum T fun t => wx t k * wx t k) * sqrt (rsum T fun t => wy t k * wy t k)
+  let sf := ksum T fun t => kscale (wx t k) (X t k) * conj (kscale (wy t k) (Y t k))
+  dblIf (kscale (ofNat 2)) onesided N k (kscale (ofNat 1 / denom) sf)
+
+/-- `multi_taper_psd` from the tapered spectra `Y t` -/
+def multiTaperPsdOf (Fs : R) (N : Nat) (onesided : Bool) (T : Nat) (w : Nat → Nat → R)
+    (Y : Nat → Nat → K) (k : Nat) : R :=
+  mtmAuto N onesided T w Y k / Fs
+
+def multiTaperPsdAt (tw : Nat → K) (Fs : R) (n N : Nat) (onesided : Bool) (T : Nat)
+    (h : Nat → Nat → R) (w : Nat → Nat → R) (x : Nat → K) (k : Nat) : R :=
+  multiTaperPsdOf Fs N onesided T w (fun t => taperedSpec tw N n (h t) x) k
+
+/-- the direct spectral estimate of taper `t` alone (what the adaptive estimate averages) -/
+def taperPsdAt (tw : Nat → K) (Fs : R) (n N : Nat) (onesided : Bool)
+    (h : Nat → Nat → R) (x : Nat → K) (t k : Nat) : R :=
+  dblIf (fun v => ofNat 2 * v) onesided N k (sqmag (taperedSpec tw N n (h t) x k)) / Fs
+
+def multiTaperPsdList (tw : Nat → K) (Fs : R) (n N : Nat) (onesided : Bool) (T : Nat)
+    (h : Nat → Nat → R) (w : Nat → Nat → R) (x : Nat → K) : List R :=
+  let Y := memoArr2 T N fun t => taperedSpec tw N n (h t) x
+  (List.range (Generated.SpecIdx.mt_psd_last_freq N onesided)).map
+    (multiTaperPsdOf Fs N onesided T w (memoGet2 Y fun t => taperedSpec tw N n (h t) x))
+
+/-- `multi_taper_csd` from the tapered spectra `Y i t` and per-channel weights `w i t k` -/
+def multiTaperCsdOf (Fs : R) (N : Nat) (onesided : Bool) (T : Nat) (w : Nat → Nat → Nat → R)
+    (Y : Nat → Nat → Nat → K) (i j k : Nat) : K :=
+  kscale (ofNat 1 / Fs)
+    (completeHermitian (lowerPairs fun i j k => mtmCross N onesided T (w i) (w j) (Y i) (Y j) k) i j k)
+
+def multiTaperCsdAt (tw : Nat → K) (Fs : R) (n N : Nat) (onesided : Bool) (T : Nat)
+    (h : Nat → Nat → R) (w : Nat → Nat → Nat → R) (x : Nat → Nat → K) (i j k : Nat) : K :=
+  multiTaperCsdOf Fs N onesided T w (fun i t => taperedSpec tw N n (h t) (x i)) i j k
+
+def multiTaperCsdList (tw : Nat → K) (Fs : R) (n N M : Nat) (onesided : Bool) (T : Nat)
+    (h : Nat → Nat → R) (w : Nat → Nat → Nat → R) (x : Nat → Nat → K) : List K :=
+  let Y := memoArr3 M T N fun i t => taperedSpec tw N n (h t) (x i)
+  matList M (Generated.SpecIdx.mt_csd_last_freq N onesided)
+    (multiTaperCsdOf Fs N onesided T w (memoGet3 Y fun i t => taperedSpec tw N n (h t) (x i)))
+
+/-! ### Welch (matplotlib.mlab.csd as documented) -/
+
+/-- number of segments: the signal is zero-padded to `N` when shorter, then one segment every
+`N - noverlap` samples -/
+def welchSegs (n N noverlap : Nat) : Nat := (max n N - N) / (N - noverlap) + 1
+
+/-- windowed DFT of segment `s` -/
+def segSpec (tw : Nat → K) (N n noverlap : Nat) (win : Nat → R) (x : Nat → K) (s k : Nat) : K :=
+  dftAt tw N (fun j => kscale (win j) (padded n x (s * (N - noverlap) + j))) k
+
+/-- which DFT bin is reported at output position `m`: one-sided `m`; two-sided output is rolled
+by `freqcenter = (N+1)/2` so that it starts at the most negative frequency -/
+def welchBin (N : Nat) (onesided : Bool) (m : Nat) : Nat :=
+  if onesided then m else (m + (N + 1) / 2) % N
+
+/-- `mlab.csd(x, y, NFFT=N, Fs, detrend_none, window, noverlap, scale_by_freq=True)[m]` from the
+segment spectra -/
+def welchCsdOf (Fs : R) (n N noverlap : Nat) (onesided : Bool) (win : Nat → R)
+    (X Y : Nat → Nat → K) (m : Nat) : K :=
+  let nseg := welchSegs n N noverlap
+  let k := welchBin N onesided m
+  let acc := ksum nseg fun s => conj (X s k) * Y s k
+  let v := dblIf (kscale (ofNat 2)) onesided N k acc
+  kscale (ofNat 1 / (ofNat nseg * (Fs * rsum N fun j => win j * win j))) v
+
+def welchCsdAt (tw : Nat → K) (Fs : R) (n N noverlap : Nat) (onesided : Bool) (win : Nat → R)
+    (x y : Nat → K) (m : Nat) : K :=
+  welchCsdOf Fs n N noverlap onesided win
+    (segSpec tw N n noverlap win x) (segSpec tw N n noverlap win y) m
+
+/-- `get_spectra(…, method='welch')` for `M > 1` channels: `fxy[i][j] = csd(x_j, x_i)` for
+`j ≥ i`, zeros below the diagonal -/
+def welchSpectraOf (Fs : R) (n N noverlap : Nat) (onesided : Bool) (win : Nat → R)
+    (X : Nat → Nat → Nat → K) (i j m : Nat) : K :=
+  if i ≤ j then welchCsdOf Fs n N noverlap onesided win (X j) (X i) m else CScalar.zero
+
+def welchSpectraAt (tw : Nat → K) (Fs : R) (n N noverlap : Nat) (onesided : Bool) (win : Nat → R)
+    (x : Nat → Nat → K) (i j m : Nat) : K :=
+  welchSpectraOf Fs n N noverlap onesided win (fun i => segSpec tw N n noverlap win (x i)) i j m
+
+def welchSpectraList (tw : Nat → K) (Fs : R) (n N noverlap M : Nat) (onesided : Bool)
+    (win : Nat → R) (x : Nat → Nat → K) : List K :=
+  let X := memoArr3 M (welchSegs n N noverlap) N fun i => segSpec tw N n noverlap win (x i)
+  matList M (outLen N onesided)
+    (welchSpectraOf Fs n N noverlap onesided win
+      (memoGet3 X fun i => segSpec tw N n noverlap win (x i)))
+
+/-- single channel: `get_spectra` returns `csd(x, x)` as a vector -/
+def welchPsdList (tw : Nat → K) (Fs : R) (n N noverlap : Nat) (onesided : Bool)
+    (win : Nat → R) (x : Nat → K) : List K :=
+  let X := memoArr2 (welchSegs n N noverlap) N (segSpec tw N n noverlap win x)
+  (List.range (outLen N onesided)).map
+    (welchCsdOf Fs n N noverlap onesided win
+      (memoGet2 X (segSpec tw N n noverlap win x)) (memoGet2 X (segSpec tw N n noverlap win x)))
+
+end generic
+
+/-! ### line protocol (Float reading)
+
+    periodogram  <Fs> <N> <sides 1|2> <x: n complex>
+    pcsd         <Fs> <N> <sides> <M> <x: M*n complex, row-major>
+    mtpsd        <Fs> <N> <sides> <T> <tapers: T*n real> <wmode f|a> <weights: T | T*L real> <x: n complex>
+    mtcsd        <Fs> <N> <sides> <M> <T> <tapers> <wmode> <weights: T | M*T*L> <x: M*n complex>
+    welch        <Fs> <N> <noverlap> <sides> <M> <window: N real> <x: M*n complex>   (M = 1: vector)
+  results: `ok <list of reals>` or `ok <interleaved complex list>`.
+-/
+
+open Nitime.Proto
+
+def chan (a : Array C) (n : Nat) (i : Nat) (j : Nat) : C := if j < n then cfn a (i * n + j) else ⟨0.0, 0.0⟩
+
+def handle (args : List String) : String :=
+  match args with
+  | ["periodogram", fs, nfft, sides, xs] =>
+    match parseFloat? fs, nfft.toNat?, parseCList? xs with
+    | some Fs, some N, some x =>
+      let tw := twiddleFn N (twiddleTable N)
+      "ok " ++ showFloatList (periodogramList tw Fs x.size N (sides == "1") (cfn x))
+    | _, _, _ => "bad-op"
+  | ["pcsd", fs, nfft, sides, m, xs] =>
+    match parseFloat? fs, nfft.toNat?, m.toNat?, parseCList? xs with
+    | some Fs, some N, some M, some x =>
+      if M = 0 then "bad-op" else
+      let n := x.size / M
+      let tw := twiddleFn N (twiddleTable N)
+      "ok " ++ showCList (periodogramCsdList tw Fs n N M (sides == "1") (chan x n))
+    | _, _, _, _ => "bad-op"
+  | ["mtpsd", fs, nfft, sides, t, taps, wmode, ws, xs] =>
+    match parseFloat? fs, nfft.toNat?, t.toNat?, parseFArray? taps, parseFArray? ws, parseCList? xs with
+    | some Fs, some N, some T, some h, some w, some x =>
+      let n := x.size
+      let one := sides == "1"
+      let L := Generated.SpecIdx.mt_psd_last_freq N one
+      let tw := twiddleFn N (twiddleTable N)
+      let hf : Nat → Nat → Float := fun t j => ffn h (t * n + j)
+      let wf : Nat → Nat → Float := if wmode == "f" then fun t _ => ffn w t else fun t k => ffn w (t * L + k)
+      "ok " ++ showFloatList (multiTaperPsdList tw Fs n N one T hf wf (cfn x))
+    | _, _, _, _, _, _ => "bad-op"
+  | ["mtcsd", fs, nfft, sides, m, t, taps, wmode, ws, xs] =>
+    match parseFloat? fs, nfft.toNat?, m.toNat?, t.toNat?, parseFArray? taps, parseFArray? ws, parseCList? xs with
+    | some Fs, some N, some M, some T, some h, some w, some x =>
+      if M = 0 then "bad-op" else
+      let n := x.size / M
+      let one := sides == "1"
+      let L := Generated.SpecIdx.mt_csd_last_freq N one
+      let tw := twiddleFn N (twiddleTable N)
+      let hf : Nat → Nat → Float := fun t j => ffn h (t * n + j)
+      let wf : Nat → Nat → Nat → Float :=
+        if wmode == "f" then fun _ t _ => ffn w t else fun i t k => ffn w ((i * T + t) * L + k)
+      "ok " ++ showCList (multiTaperCsdList tw Fs n N M one T hf wf (chan x n))
+    | _, _, _, _, _, _, _ => "bad-op"
+  | ["welch", fs, nfft, nov, sides, m, win, xs] =>
+    match parseFloat? fs, nfft.toNat?, nov.toNat?, m.toNat?, parseFArray? win, parseCList? xs with
+    | some Fs, some N, some nov, some M, some w, some x =>
+      if M = 0 ∨ N = 0 ∨ nov ≥ N then "bad-op" else
+      let n := x.size / M
+      let one := sides == "1"
+      let tw := twiddleFn N (twiddleTable N)
+      if M = 1 then "ok " ++ showCList (welchPsdList tw Fs n N nov one (ffn w) (cfn x))
+      else "ok " ++ showCList (welchSpectraList tw Fs n N nov M one (ffn w) (chan x n))
+    | _, _, _, _, _, _ => "bad-op"
+  | _ => "bad-op"
 
 end Nitime.C04
